@@ -13,12 +13,19 @@ structure Calm (a b : IState) : Prop where
   bottoms : b.bottoms = a.bottoms
   src : b.src = a.src
   srcmap : b.srcmap = a.srcmap
+  posMax : b.posMax = a.posMax
+  level : b.level = a.level
+  linkLevel : b.linkLevel = a.linkLevel
 
-theorem Calm.refl (a : IState) : Calm a a := ⟨rfl, rfl, rfl, rfl⟩
+theorem Calm.refl (a : IState) : Calm a a := ⟨rfl, rfl, rfl, rfl, rfl, rfl, rfl⟩
 
 theorem Calm.trans {a b c : IState} (h1 : Calm a b) (h2 : Calm b c) : Calm a c :=
   ⟨h2.children.trans h1.children, h2.bottoms.trans h1.bottoms, h2.src.trans h1.src,
-   h2.srcmap.trans h1.srcmap⟩
+   h2.srcmap.trans h1.srcmap, h2.posMax.trans h1.posMax, h2.level.trans h1.level,
+   h2.linkLevel.trans h1.linkLevel⟩
+
+theorem Calm.frame {a b : IState} (h : Calm a b) : Frame a b :=
+  ⟨h.src, h.srcmap, h.posMax, h.level, h.linkLevel⟩
 
 def CalmFn (skip : IState → Except Panic IState) : Prop := ∀ s s', skip s = .ok s' → Calm s s'
 
@@ -61,11 +68,11 @@ theorem parseLinkLabel_calm {skip : IState → Except Panic IState} (hq : CalmFn
   · next st1 hl =>
     simp only [Except.ok.injEq, Prod.mk.injEq] at h; rw [← h.2]
     have := labelLoop_calm hq en _ _ _ _ _ hl
-    exact ⟨this.children, this.bottoms, this.src, this.srcmap⟩
+    exact ⟨this.children, this.bottoms, this.src, this.srcmap, this.posMax, this.level, this.linkLevel⟩
   · next found st1 hl =>
     simp only [Except.ok.injEq, Prod.mk.injEq] at h; rw [← h.2]
     have := labelLoop_calm hq en _ _ _ _ _ hl
-    exact ⟨this.children, this.bottoms, this.src, this.srcmap⟩
+    exact ⟨this.children, this.bottoms, this.src, this.srcmap, this.posMax, this.level, this.linkLevel⟩
 
 theorem parseLinkRef_calm {cfg : Cfg} {skip : IState → Except Panic IState} (hq : CalmFn skip)
     {fuel : Nat} {st : IState} {ls le : Nat} {o : Option LinkRes} {st' : IState}
@@ -230,7 +237,8 @@ theorem linkRule_silent_calm {cfg : Cfg} {skip tok : IState → Except Panic ISt
     · simp only [Except.ok.injEq, Prod.mk.injEq] at h; rw [← h.2]; exact parseLink_calm hq hpl
 
 theorem Simple.calm {st st' : IState} {o : Option Nat} (h : Simple st true o st') : Calm st st' :=
-  ⟨(h.quiet rfl).children, (h.quiet rfl).bottoms, h.frame.src, h.frame.srcmap⟩
+  ⟨(h.quiet rfl).children, (h.quiet rfl).bottoms, h.frame.src, h.frame.srcmap, h.frame.posMax,
+   h.frame.level, h.frame.linkLevel⟩
 
 theorem runRule_silent_calm {cfg : Cfg} {skip tok : IState → Except Panic IState} (hq : CalmFn skip)
     {fuel : Nat} {id : RuleId} {st : IState} {o : Option Nat} {st' : IState}
@@ -292,7 +300,8 @@ theorem silentBumped_calm {run : IState → Bool → RuleRes} {st : IState} {o :
     · simp at h
     · simp only [Except.ok.injEq, Prod.mk.injEq] at h; rw [← h.2]
       have q := hrun _ _ _ hr
-      exact ⟨q.children, q.bottoms, q.src, q.srcmap⟩
+      have hlev : st1.level = st.level + 1 := q.level
+      exact ⟨q.children, q.bottoms, q.src, q.srcmap, q.posMax, by simp only; omega, q.linkLevel⟩
 
 theorem skipStep_calm {cfg : Cfg} {skip tok : IState → Except Panic IState} (hq : CalmFn skip)
     {fuel : Nat} {st st' : IState} (h : skipStep cfg skip tok fuel st = .ok st') : Calm st st' := by
@@ -307,13 +316,13 @@ theorem skipStep_calm {cfg : Cfg} {skip tok : IState → Except Panic IState} (h
   · next len st1 hok =>
     simp only [Except.ok.injEq] at h; rw [← h]
     have q := hfr _ _ hok
-    exact ⟨q.children, q.bottoms, q.src, q.srcmap⟩
+    exact ⟨q.children, q.bottoms, q.src, q.srcmap, q.posMax, q.level, q.linkLevel⟩
   · next st1 hok =>
     have q := hfr _ _ hok
     split at h
     · simp at h
     · simp only [Except.ok.injEq] at h; rw [← h]
-      exact ⟨q.children, q.bottoms, q.src, q.srcmap⟩
+      exact ⟨q.children, q.bottoms, q.src, q.srcmap, q.posMax, q.level, q.linkLevel⟩
 
 /-- **`skip_token` is calm**, at every fuel -/
 theorem skipToken_calm (cfg : Cfg) : ∀ fuel : Nat, CalmFn (fun s => skipToken cfg fuel s) := by
@@ -325,9 +334,9 @@ theorem skipToken_calm (cfg : Cfg) : ∀ fuel : Nat, CalmFn (fun s => skipToken 
     simp only at h
     unfold skipToken at h
     split at h
-    · simp only [Except.ok.injEq] at h; rw [← h]; exact ⟨rfl, rfl, rfl, rfl⟩
+    · simp only [Except.ok.injEq] at h; rw [← h]; exact ⟨rfl, rfl, rfl, rfl, rfl, rfl, rfl⟩
     · split at h
       · exact skipStep_calm ih h
-      · simp only [Except.ok.injEq] at h; rw [← h]; exact ⟨rfl, rfl, rfl, rfl⟩
+      · simp only [Except.ok.injEq] at h; rw [← h]; exact ⟨rfl, rfl, rfl, rfl, rfl, rfl, rfl⟩
 
 end MdIt.Inline
